@@ -279,7 +279,7 @@ fn auc_t<T: RealNumber>(c: &mut Case) {
     };
     let mut yt: Vec<f64> = (0..n).map(|i| if i < npos { 1.0 } else { 0.0 }).collect();
     c.rng.shuffle(&mut yt);
-    let kind = *c.rng.pick(&["continuous", "continuous", "informative", "few-values", "few-values", "constant", "rounded", "integers", "separating", "anti-separating", "signed-zero", "sorted-input"]);
+    let kind = *c.rng.pick(&["continuous", "continuous", "informative", "few-values", "few-values", "constant", "rounded", "integers", "separating", "anti-separating", "signed-zero", "sorted-input", "sort-killer"]);
     let sc = *c.rng.pick(&[1.0, 1.0, 1e-6, 1e6, -1.0]);
     let mut ys: Vec<f64> = match kind {
         "continuous" => (0..n).map(|_| c.rng.f() * sc).collect(),
@@ -298,6 +298,7 @@ fn auc_t<T: RealNumber>(c: &mut Case) {
                 })
                 .collect()
         }
+        "sort-killer" => scverif::gen::sort_killer(n, c.rng.bool(0.5)).iter().map(|v| v * sc).collect(),
         "constant" => {
             let v = *c.rng.pick(&[0.0, 0.5, 1.0, -3.25, 1e9]);
             vec![v; n]
